@@ -1,0 +1,96 @@
+//go:build verif
+
+// Verification hooks for the ABI decoder (properties C09, C10, C13).
+// Thin wrappers only; nothing here is compiled without the build tag "verif".
+package dig
+
+import (
+	"context"
+	"sync"
+
+	"github.com/indexsupply/shovel/eth"
+	"github.com/indexsupply/shovel/wctx"
+	"github.com/indexsupply/shovel/wpg"
+)
+
+// VerifType is a plain copy of every field of an atype.
+type VerifType struct {
+	Kind   byte
+	Size   int
+	Static bool
+	Sel    bool
+	Pos    int
+	Length int
+	Fields []VerifType
+	Elem   *VerifType
+}
+
+func verifCopyType(t atype) VerifType {
+	v := VerifType{Kind: t.kind, Size: t.size, Static: t.static, Sel: t.sel, Pos: t.pos, Length: t.length}
+	for i := range t.fields {
+		v.Fields = append(v.Fields, verifCopyType(t.fields[i]))
+	}
+	if t.elem != nil {
+		e := verifCopyType(*t.elem)
+		v.Elem = &e
+	}
+	return v
+}
+
+func verifMakeType(v VerifType) atype {
+	t := atype{kind: v.Kind, size: v.Size, static: v.Static, sel: v.Sel, pos: v.Pos, length: v.Length}
+	for i := range v.Fields {
+		t.fields = append(t.fields, verifMakeType(v.Fields[i]))
+	}
+	if v.Elem != nil {
+		e := verifMakeType(*v.Elem)
+		t.elem = &e
+	}
+	return t
+}
+
+// VerifEventType returns Event.ABIType() and the values the decoder derives from it.
+func VerifEventType(e Event) (t VerifType, ncols int, hasSelect bool) {
+	at := e.ABIType()
+	return verifCopyType(at), len(at.selected()), at.hasSelect()
+}
+
+// VerifInputType returns Input.ABIType(pos).
+func VerifInputType(inp Input, pos int) (int, VerifType) {
+	p, at := inp.ABIType(pos)
+	return p, verifCopyType(at)
+}
+
+// VerifDerived recomputes hasStatic/sizeof/hasSelect/hasKind('a') on a type.
+func VerifDerived(v VerifType) (static bool, size int, hasSelect bool, hasKindArr bool, nsel int) {
+	t := verifMakeType(v)
+	return hasStatic(t), sizeof(t), t.hasSelect(), t.hasKind('a'), len(t.selected())
+}
+
+// VerifResult wraps one reusable decoder instance.
+type VerifResult struct{ r *Result }
+
+func VerifNewResult(e Event) *VerifResult { return &VerifResult{r: NewResult(e.ABIType())} }
+
+func VerifNewResultOf(v VerifType) *VerifResult { return &VerifResult{r: NewResult(verifMakeType(v))} }
+
+func (v *VerifResult) Scan(input []byte) error { return v.r.Scan(input) }
+func (v *VerifResult) Bytes() [][][]byte       { return v.r.Bytes() }
+func (v *VerifResult) Len() int                { return v.r.Len() }
+func (v *VerifResult) NCols() int              { return v.r.ncols }
+
+// Collection is the length of the reused row collection (allocation measure).
+func (v *VerifResult) Collection() int { return len(v.r.collection) }
+
+// VerifGate runs processLog on one log for an integration without filters and
+// returns the number of rows it contributed.
+func VerifGate(ig Integration, l *eth.Log) (int, error) {
+	ctx := wctx.WithIGName(context.Background(), ig.Name())
+	lwc := &logWithCtx{ctx: ctx, b: &eth.Block{}, t: &eth.Tx{}, l: l}
+	var pg wpg.Conn
+	rows, err := ig.processLog(nil, lwc, &sync.Mutex{}, pg)
+	return len(rows), err
+}
+
+func VerifNumIndexed(e Event) int      { return e.numIndexed() }
+func VerifSigHash(ig Integration) []byte { return ig.sighash }
